@@ -208,4 +208,176 @@ theorem NEInit_backEnv (e : Env) (pj : PJ) (v' : View) (d' : Iter) : NEInit pj v
   · simp [backEnv, Env.get_set]
   · simp [backEnv, Env.get_set]
 
+/-- the variables `NextElementBytes` shares with its caller -/
+def neKeys : List String :=
+  ["o.off", "o.lim", "dst.off", "dst.addNext", "dst.cur", "dst.t", "dst.lim", "Strings.B", "Message"]
+
+theorem NEInit.set {pj : PJ} {v : View} {d : Iter} {e : Env} {t : Array UInt64} (h : NEInit pj v d ⟨e, t⟩) (k : String)
+    (x : Val) (hk : k ∉ neKeys) : NEInit pj v d ⟨e.set k x, t⟩ := by
+  simp only [neKeys, List.mem_cons, List.not_mem_nil, or_false, not_or] at hk
+  obtain ⟨k1, k2, k3, k4, k5, k6, k7, k8, k9⟩ := hk
+  obtain ⟨ht, hv, hd, hS, hM⟩ := h
+  obtain ⟨v1, v2⟩ := viewAt_get_o _ _ hv
+  obtain ⟨d1, d2, d3, d4, d5⟩ := iterAt_get_dst _ _ hd
+  constructor
+  · exact ht
+  · apply viewAt_of_gets <;> simp [Env.get_set, *]
+  · apply iterAt_of_gets <;> simp [Env.get_set, *]
+  · simp [Env.get_set, *]
+  · simp [Env.get_set, *]
+
+/-- `o.off = o'` -/
+theorem NEInit.setOff {pj : PJ} {v : View} {d : Iter} {e : Env} {t : Array UInt64} (h : NEInit pj v d ⟨e, t⟩) (o' : Nat) :
+    NEInit pj { v with off := o' } d ⟨e.set "o.off" (.int o'), t⟩ := by
+  obtain ⟨ht, hv, hd, hS, hM⟩ := h
+  obtain ⟨v1, v2⟩ := viewAt_get_o _ _ hv
+  obtain ⟨d1, d2, d3, d4, d5⟩ := iterAt_get_dst _ _ hd
+  constructor
+  · exact ht
+  · apply viewAt_of_gets <;> simp [Env.get_set, *]
+  · apply iterAt_of_gets <;> simp [Env.get_set, *]
+  · simp [Env.get_set, *]
+  · simp [Env.get_set, *]
+
+/-- re-assigning a shared variable its own value -/
+theorem NEInit.reset {pj : PJ} {v : View} {d : Iter} {e : Env} {t : Array UInt64} (h : NEInit pj v d ⟨e, t⟩) (k : String)
+    (x : Val) (hx : e.get k = some x) : NEInit pj v d ⟨e.set k x, t⟩ := by
+  obtain ⟨ht, hv, hd, hS, hM⟩ := h
+  have hg : ∀ k', (e.set k x).get k' = e.get k' := by
+    intro k'
+    rw [Env.get_set]
+    by_cases hk : k = k'
+    · subst hk; simp [hx]
+    · simp [hk]
+  constructor
+  · exact ht
+  · simp only [viewAt, hg]; exact hv
+  · simp only [iterAt, hg]; exact hd
+  · simp only [hg]; exact hS
+  · simp only [hg]; exact hM
+
+/-- `*dst = j` -/
+theorem NEInit.setDst {pj : PJ} {v : View} {d : Iter} {e : Env} {t : Array UInt64} (h : NEInit pj v d ⟨e, t⟩) (j : Iter) :
+    NEInit pj v j ⟨setIter e "dst" j, t⟩ := by
+  obtain ⟨ht, hv, hd, hS, hM⟩ := h
+  obtain ⟨v1, v2⟩ := viewAt_get_o _ _ hv
+  constructor
+  · exact ht
+  · apply viewAt_of_gets <;> simp [setIter, Env.get_set, *]
+  · exact iterAt_setIter_dst _ _
+  · simp [setIter, Env.get_set, *]
+  · simp [setIter, Env.get_set, *]
+
+/-! ## the syntax tree of `NextElementBytes`, cut into pieces -/
+
+/-- named results, the end-of-view test, the first read -/
+def nebPre : List Stmt := goObject_NextElementBytes.body.take 5
+/-- `switch Tag(v >> 56)` -/
+def nebSwitch : Stmt := (goObject_NextElementBytes.body.drop 5).headD .brk
+/-- from `v = o.tape.Tape[o.off]` (the value word) to the end -/
+def nebTail : List Stmt := goObject_NextElementBytes.body.drop 6
+
+def swCase (st : Stmt) (k : Nat) : List Stmt :=
+  match st with
+  | .switch _ cs _ => ((cs.drop k).headD ([], [])).2
+  | _ => []
+
+/-- `case TagString:` -/
+def nebStr : List Stmt := swCase nebSwitch 0
+/-- `case TagNop:` -/
+def nebNop : List Stmt := swCase nebSwitch 2
+
+theorem neb_split : goObject_NextElementBytes.body = nebPre ++ nebSwitch :: nebTail := rfl
+
+theorem neb_pre (e : Env) (tape : Array UInt64) (fuel : Nat) (off lim : Nat) (h1 : e.get "o.off" = some (.int off))
+    (h2 : e.get "o.lim" = some (.int lim)) (hsz : lim ≤ tape.size) :
+    exec goFuns fuel nebPre ⟨e, tape⟩ =
+      if h : off ≥ lim then
+        .ret ⟨((e.set "name" (.bytes #[])).set "t" (.u8 0)).set "err" (.bool false), tape⟩
+          [.bytes #[], .u8 0, .bool false]
+      else
+        .normal ⟨(((e.set "name" (.bytes #[])).set "t" (.u8 0)).set "err" (.bool false)).set "v"
+          (.u64 (tape[off]'(by omega))), tape⟩ := by
+  simp only [nebPre, goObject_NextElementBytes, List.take]
+  by_cases h : off ≥ lim
+  · have h' : (lim : Int) ≤ off := by omega
+    simp [h1, h2, h, h', Env.get_set]
+  · have h' : ¬ (lim : Int) ≤ off := by omega
+    have hlt : off < lim := by omega
+    have hr : tape[off]? = some (tape[off]'(by omega)) := by simp
+    simp [h1, h2, h, h', hlt, hr, Env.get_set]
+
+theorem neb_switch (e : Env) (tape : Array UInt64) (fuel : Nat) (w : UInt64) (hv : e.get "v" = some (.u64 w)) :
+    exec1 goFuns fuel nebSwitch ⟨e, tape⟩ =
+      if tagOf w = 34 then exec goFuns fuel nebStr ⟨e, tape⟩
+      else if tagOf w = 125 then .ret ⟨e, tape⟩ [.bytes #[], .u8 0, .bool false]
+      else if tagOf w = 78 then exec goFuns fuel nebNop ⟨e, tape⟩
+      else .ret ⟨e, tape⟩ [.bytes #[], .u8 0, .bool true] := by
+  have ht : (w >>> 56).toUInt8 = tagOf w := rfl
+  simp only [nebSwitch, nebStr, nebNop, swCase, goObject_NextElementBytes, List.drop, List.headD]
+  rw [exec1]
+  by_cases h1 : tagOf w = 34
+  · simp [hv, ht, h1, -exec, -exec1]
+  · have h1' : ¬ (34 : UInt8) = tagOf w := fun h => h1 h.symm
+    by_cases h2 : tagOf w = 125
+    · simp [hv, ht, h1, h2, -exec, -exec1]
+      simp
+    · have h2' : ¬ (125 : UInt8) = tagOf w := fun h => h2 h.symm
+      by_cases h3 : tagOf w = 78
+      · simp [hv, ht, h1, h2, h3, -exec, -exec1]
+      · have h3' : ¬ (78 : UInt8) = tagOf w := fun h => h3 h.symm
+        simp [hv, ht, h1, h2, h3, h1', h2', h3', -exec, -exec1]
+        simp
+
+/-! ### `case TagNop:` -/
+
+theorem neb_nop (e : Env) (tape : Array UInt64) (f : Nat) (off : Nat) (w : UInt64)
+    (h1 : e.get "o.off" = some (.int off)) (hv : e.get "v" = some (.u64 w)) :
+    exec goFuns (f + 1) nebNop ⟨e, tape⟩ =
+      if payloadOf w = 0 then .ret ⟨e.set "skip" (.int 0), tape⟩ [.bytes #[], .u8 0, .bool true]
+      else callFun goFuns f "o" "Object.NextElementBytes" ["dst"] []
+        ⟨(e.set "skip" (.int (payloadOf w).toNat)).set "o.off" (.int ((off + (payloadOf w).toNat : Nat) : Int)), tape⟩ := by
+  have hp : w &&& 72057594037927935 = payloadOf w := rfl
+  have hz : (payloadOf w = 0) ↔ (payloadOf w).toNat = 0 := by rw [← UInt64.toNat_inj]; rfl
+  simp only [nebNop, nebSwitch, swCase, goObject_NextElementBytes, List.drop, List.headD]
+  by_cases h0 : (payloadOf w).toNat = 0
+  · simp [h1, hv, hp, hz, h0, toInt64_payload, Env.get_set]
+  · simp [h1, hv, hp, hz, h0, toInt64_payload, Env.get_set]
+    generalize callFun goFuns f _ _ _ _ _ = out
+    cases out <;> rfl
+
+/-! ### `case TagString:` -/
+
+def nebStrA : List Stmt := nebStr.take 3
+def nebStrC : List Stmt := nebStr.drop 4
+
+theorem nebStr_split : nebStr = nebStrA ++
+    .callAssign ["name", "err"] "o" "ParsedJson.stringByteAt" [] [.v "offset", .v "length"] :: nebStrC := rfl
+
+theorem neb_strA (e : Env) (tape : Array UInt64) (fuel : Nat) (off lim : Nat) (w : UInt64)
+    (h1 : e.get "o.off" = some (.int off)) (h2 : e.get "o.lim" = some (.int lim)) (hv : e.get "v" = some (.u64 w))
+    (hsz : lim ≤ tape.size) :
+    exec goFuns fuel nebStrA ⟨e, tape⟩ =
+      if h : off + 2 ≥ lim then .ret ⟨e, tape⟩ [.bytes #[], .u8 0, .bool true]
+      else .normal ⟨(e.set "length" (.u64 (tape[off + 1]'(by omega)))).set "offset" (.u64 (payloadOf w)), tape⟩ := by
+  have hp : w &&& 72057594037927935 = payloadOf w := rfl
+  simp only [nebStrA, nebStr, nebSwitch, swCase, goObject_NextElementBytes, List.drop, List.headD, List.take]
+  by_cases h : off + 2 ≥ lim
+  · have h' : (lim : Int) ≤ off + 2 := by omega
+    simp [h1, h2, hv, h, h', Env.get_set]
+  · have h' : ¬ (lim : Int) ≤ off + 2 := by omega
+    have hlt : (off : Int) + 1 < lim := by omega
+    have hr : tape[off + 1]? = some (tape[off + 1]'(by omega)) := by simp
+    have hn : ((off : Int) + 1).toNat = off + 1 := by omega
+    have h0 : (0 : Int) ≤ off + 1 := by omega
+    simp [h1, h2, hv, hp, h, h', hlt, hr, hn, h0, Env.get_set]
+
+theorem neb_strC (e : Env) (tape : Array UInt64) (fuel : Nat) (off : Nat) (b : Bool)
+    (h1 : e.get "o.off" = some (.int off)) (he : e.get "err" = some (.bool b)) :
+    exec goFuns fuel nebStrC ⟨e, tape⟩ =
+      if b then .ret ⟨e, tape⟩ [.bytes #[], .u8 0, .bool true]
+      else .normal ⟨e.set "o.off" (.int ((off + 2 : Nat) : Int)), tape⟩ := by
+  simp only [nebStrC, nebStr, nebSwitch, swCase, goObject_NextElementBytes, List.drop, List.headD]
+  cases b <;> simp [h1, he, Env.get_set]
+
 end SJ.GoObject
